@@ -90,6 +90,55 @@ fn run_bytes(log: &mut Log, tag: &str, text: &[u8], plan: &Plan) {
     }
 }
 
+/// A read collection with more sentinel occurrences than fit into 16 bit ranks. The array is logged
+/// together with `rk` (rk[p] = row of the sentinel at position p, -1 elsewhere): a re-indexing of the
+/// observed array, which the specification verifies against the array before using it.
+fn run_big(log: &mut Log, tag: &str, text: &[u8]) {
+    let n = text.len();
+    if !log.begin(tag, json!({"kind": "bytes", "text": bytes(text)})) {
+        return;
+    }
+    log.call("suffix_array_big", json!({}), || {
+        let sa = suffix_array(text);
+        let sent = text[n - 1];
+        let mut rk: Vec<i64> = vec![-1; n];
+        for (r, &p) in sa.iter().enumerate() {
+            if p < n && text[p] == sent {
+                rk[p] = r as i64;
+            }
+        }
+        json!({"sa": usizes(&sa), "rk": i64s(&rk)})
+    });
+}
+
+/// Sampled suffix array of the unary text A^(n-1)$ (closed-form family: its suffix array is
+/// n-1, ..., 0 and is built here without running SA-IS; the text is not logged).
+fn run_unary(log: &mut Log, tag: &str, n: usize, k: u32, s: usize) {
+    if !log.begin(tag, json!({"kind": "unary", "n": n, "a": b'A', "sent": b'$'})) {
+        return;
+    }
+    let mut text = vec![b'A'; n];
+    text[n - 1] = b'$';
+    let sa: Vec<usize> = (0..n).rev().collect();
+    // first rows, last rows, rows around 2^24 and a stride through the whole array
+    let mut rows: Vec<usize> = (0..200.min(n)).collect();
+    rows.extend(n.saturating_sub(200)..n);
+    let mid = 1usize << 24;
+    if n > mid {
+        rows.extend(mid - 100..(mid + 100).min(n));
+    }
+    rows.extend((0..n).step_by(104_729));
+    log.call("sample_unary", json!({"k": k, "s": s, "rows": usizes(&rows)}), || {
+        let alphabet = Alphabet::new(b"$A");
+        let b = bwt(&text, &sa);
+        let l = less(&b, &alphabet);
+        let occ = Occ::new(&b, k, &alphabet);
+        let smp = sa.sample(&text, &b, &l, &occ, s);
+        let vals: Vec<i64> = rows.iter().map(|&i| smp.get(i).map(|x| x as i64).unwrap_or(-1)).collect();
+        json!({"len": smp.len(), "vals": i64s(&vals)})
+    });
+}
+
 fn run_int(log: &mut Log, tag: &str, text: &[usize], w: u32) {
     if !log.begin(tag, json!({"kind": "int", "text": usizes(text)})) {
         return;
@@ -477,6 +526,46 @@ pub fn drive(log: &mut Log) {
             run_bytes(log, "plant", &text, &plan);
             log.oblige(&format!("lcp_plant_{}", l));
         }
+    }
+
+    // (g) more than 65,535 sentinel occurrences: ranks of the transformed text need 32 bits
+    for v in 0..log.opts.n(1, 2) {
+        case += 1;
+        if !log.mine(case) {
+            continue;
+        }
+        let mut rng = Rng::new(seed, 10, case);
+        let reads = 66_000 + rng.range(0, 500) as usize;
+        let mut text: Vec<u8> = Vec::with_capacity(reads * 4);
+        for _ in 0..reads {
+            let len = if v == 0 && th { rng.range(1, 4) } else { rng.range(1, 2) } as usize;
+            for _ in 0..len {
+                text.push(*rng.pick(b"ACGT"));
+            }
+            text.push(b'$');
+        }
+        run_big(log, "big", &text);
+        log.oblige("more_than_65535_sentinels");
+    }
+
+    // (h) a text longer than 2^24 (not exactly representable as f32), sampled; unary closed-form family
+    let unary: &[(usize, u32, usize)] = if th {
+        &[((1 << 24) + 1, 128, 32), ((1 << 24) + 1, 65, 64), ((1 << 24) + 3, 128, 2)]
+    } else {
+        &[((1 << 24) + 1, 128, 32)]
+    };
+    for &(n, k, s) in unary {
+        case += 1;
+        if !log.mine(case) {
+            continue;
+        }
+        run_unary(log, "unary", n, k, s);
+        log.oblige("text_longer_than_2p24_sampled");
+    }
+    // the same family small enough to cross-check nothing but the event shape (n = 1000)
+    case += 1;
+    if log.mine(case) {
+        run_unary(log, "unary", 1000, 3, 32);
     }
 }
 
